@@ -222,6 +222,12 @@ def deep_machines(tier):
         mm = BddMachine(kw.pop('names'), **kw)
         mm.name = 'bdd-history/' + label
         out.append((mm, depth))
+    # interleavings with variable declarations / removals (the machine of C14)
+    from .c14 import VarMachine
+    vm = VarMachine(pool=('x', 'y', 'z'), seeds=('empty', 'two', 'three-garbage'))
+    vm.name = 'vars/c02'
+    vm.names = vm.pool
+    out.append((vm, 5 if tier == 'quick' else 7))
     return out
 
 
@@ -230,7 +236,13 @@ _by_task = sweep.replay_by_task(dispatch)
 
 def replay(case):
     if 'trace' in case:
-        mm = BddMachine(tuple(case['names']), max_handles=9, max_ext=9)
+        if case.get('machine', '').startswith('vars/'):
+            from .c14 import VarMachine
+            vm = VarMachine(pool=tuple(case['names']),
+                            seeds=('empty', 'two', 'three-garbage'))
+            return vm.replay(case)
+        mm = BddMachine(tuple(case['names']), max_handles=9, max_ext=9, with_let=True,
+                        with_quant=True)
         return mm.replay(case)
     return _by_task(case)
 
